@@ -789,8 +789,12 @@ class Array(Tuple):
         self.original_value = list(values)
 
     def get_sql(self, ctx: SqlContext) -> str:
-        if ctx.parameterizer is None or not ctx.parameterizer.should_parameterize(
-            self.original_value
+        # only an array of plain values can travel as one parameter; with a column or expression among
+        # its elements it is rendered element by element (each value then gets its own placeholder)
+        if (
+            ctx.parameterizer is None
+            or not ctx.parameterizer.should_parameterize(self.original_value)
+            or any(isinstance(value, Node) for value in self.original_value)
         ):
             element_ctx = ctx.copy(with_alias=False)
             values = ",".join(term.get_sql(element_ctx) for term in self.values)
